@@ -16,7 +16,9 @@ rows, first, later = [], 0, 0
 for f in sorted(glob.glob(os.path.join(ROOT, "seeded", "*", "meta.json"))):
     d = json.load(open(f)); name = f.split("/")[-2]
     note = d.get("note")
-    if note and note.startswith("first run:"): later += 1; outcome = "caught: " + note
+    import re
+    if note and (note.startswith("first run:") or re.search(r"[Ff]irst run: (ESCAPED|only|one model|reported only|NOT CAUGHT|mismatches only)", note)):
+        later += 1; outcome = "caught: " + note
     else: first += 1; outcome = "caught: caught at first run" + ("; " + note if note else "")
     if not d.get("caught"): outcome = "NOT CAUGHT " + (note or "")
     cell = lambda s: " ".join(str(s).split()).replace("|", "/")
